@@ -31,12 +31,22 @@ def match_f15(f: dict) -> bool:
     return f['sig'] == 'records-left' and bool(f['case'].get('reverted_during_open_cycle'))
 
 
+def match_f702(f: dict) -> bool:
+    """F702 (recorded under C09), seen from the closed loop: the daemon of an object that disappeared (forced removal) gets
+    the stop flag at most, never the cancellation or abandonment - no further cycle exists and the memory is forgotten, so
+    the daemon killer cannot reach it either; when it also swallows a cancellation, the graceful stop of the operator waits
+    for it without limit (the final 'hung tasks' sweep cancels once and then waits)."""
+    return (f['sig'] == 'crash' and 'graceful stop did not finish' in str(f.get('observed'))
+            and bool(f['case'].get('orphaned_unstoppable_daemons'))
+            and any(h['kind'] == 'daemon' and h.get('temper') == 'ignores' for h in f['case']['scenario']['handlers']))
+
+
 def gen(r, i):
     return cs.gen_scenario(r, n_actions=14, daemons=(i % 4 == 0))
 
 
 def run(ctx: fw.Ctx) -> int:
-    ctx.matchers = {'F13': match_f13, 'F14': match_f14, 'F15': match_f15, 'F6': match_f6}
+    ctx.matchers = {'F13': match_f13, 'F14': match_f14, 'F15': match_f15, 'F6': match_f6, 'F702': match_f702}
     ctx.proofs(extra=['Props/C02History.v'])
     trace_tie(ctx)
     retrigger_layer(ctx)
@@ -116,7 +126,7 @@ def retrigger_layer(ctx: fw.Ctx) -> None:
 
 
 def replay(ctx: fw.Ctx, body: dict) -> bool:
-    ctx.matchers = {'F13': match_f13, 'F14': match_f14, 'F15': match_f15, 'F6': match_f6}
+    ctx.matchers = {'F13': match_f13, 'F14': match_f14, 'F15': match_f15, 'F6': match_f6, 'F702': match_f702}
     if 'scenario' not in (body.get('case') or {}) and (body.get('case') or {}).get('fn') == 'apply':
         from kv.props import c08_model
         fctx = c08_model.SigFilter(ctx, RETRIGGER_SIGS)
